@@ -9,8 +9,10 @@ package sim
 import (
 	"fmt"
 	"reflect"
+	"runtime"
 	"sort"
 	"strings"
+	"testing/synctest"
 	"time"
 
 	"github.com/anishathalye/porcupine"
@@ -200,6 +202,7 @@ func c17NewPool(kind, size int) hessian.Pool {
 var c17KindNames = []string{"NewSerializerPool", "NewEncoderPool", "NewDecoderPool"}
 
 func runC17(ch *Choices, cfg *RunCfg) (o *Outcome) {
+	g0 := runtime.NumGoroutine()
 	o = newOutcome()
 	setMapOrder(0)
 	kind := ch.Intn(3, "pool.kind")
@@ -296,6 +299,13 @@ func runC17(ch *Choices, cfg *RunCfg) (o *Outcome) {
 	pools[0] = c17NewPool(kind, size)
 	if len(sizes) > 1 && !sibFirst {
 		pools[1] = c17NewPool(kind, sizes[1])
+	}
+	if runtime.NumGoroutine() > g0 {
+		synctest.Wait()
+		if n := runtime.NumGoroutine() - g0; n > 0 {
+			o.Unsupported = fmt.Sprintf("constructing the pools started %d goroutine(s) of the library's own; the simulator schedules caller tasks only", n)
+			return o
+		}
 	}
 	faultsOn := ch.Intn(3, "faults.on") == 1
 	abandonP, abandons := 0, 0
@@ -484,7 +494,7 @@ func runC17(ch *Choices, cfg *RunCfg) (o *Outcome) {
 				case 'S':
 					// only this task runs, every other goroutine of the bubble is parked: the fake clock
 					// jumps by the whole period at once
-					time.Sleep(c17Idle[op.arg])
+					t.Sleep(c17Idle[op.arg])
 					t.Yield()
 				case 'U':
 					if useReal {
@@ -519,6 +529,10 @@ func runC17(ch *Choices, cfg *RunCfg) (o *Outcome) {
 	s.Run()
 	o.Steps = s.Steps
 	o.Evals = 1
+	if s.Foreign {
+		o.Unsupported = "library code ran on a goroutine of the library's own while simulated time passed (a background goroutine woken by a timer); the simulator schedules caller tasks only"
+		return o
+	}
 	if s.BlockedTask != nil {
 		o.Fatal = true
 		site := s.BlockedTask.lastSite
